@@ -150,16 +150,80 @@ def pipeline (w : Widths) (chunk : Nat) (f : Nat → Nat) (afterShuffle1 : List 
   let perShard := (List.range n).map (fun d => aggregateReports w (reshardByPrf n f afterShuffle1 d))
   finalize w ((shuffle2 perShard).map (shardHistogram w chunk))
 
-/-- canonical run used by the driver: no dummies, identity shuffles, identity PRF. -/
+/-- canonical run used by the driver: no dummies, identity shuffles, identity PRF. Only a helper
+with a single shard answers an empty query right away (`if input_rows.is_empty() && shard_count == 1`). -/
 def run (w : Widths) (chunk : Nat) (shards : List (List Rec)) : List Nat :=
-  if shards.flatten.isEmpty then List.replicate w.buckets 0 else
+  if shards.length == 1 && shards.flatten.isEmpty then List.replicate w.buckets 0 else
   pipeline w chunk id shards id
 
-/-- Outcome of a query as the code behaves today (`none` = the query never completes).
-Known finding F8: with more than one shard, a shard that enters `hybrid_protocol` with no rows while
-another shard has rows returns early and leaves the collective shuffle, so the others wait forever. -/
-def runOutcome (w : Widths) (chunk : Nat) (shards : List (List Rec)) : Option (List Nat) :=
-  if shards.length > 1 && shards.any (·.isEmpty) && !shards.flatten.isEmpty then none
-  else some (run w chunk shards)
+/-! ## Participation in the collective steps (finding F8)
+
+The sharded shuffles, the resharding by pseudonym and the finalization are COLLECTIVE: every shard of a
+helper exchanges messages with every other shard and waits for their end-of-stream signal. A collective
+step therefore completes only if all shards enter it. What a shard does depends on the row counts it
+observes at the four places where the code branches on emptiness (the counts are public and the same
+on the three helpers of a shard). -/
+
+inductive Coll where
+  | inputShuffle | reshardByPrf | aggShuffle | finalize
+  deriving DecidableEq, Repr
+
+/-- row counts seen by one shard: on entry to `hybrid_protocol`, after padding + input shuffle (entry to
+`compute_prf_and_reshard`), after `aggregate_reports` (entry to `breakdown_reveal_aggregation`), after
+padding + second shuffle (entry to `reveal_breakdowns`). -/
+structure Counts where
+  entry : Nat
+  afterShuffle1 : Nat
+  pairs : Nat
+  afterShuffle2 : Nat
+  deriving DecidableEq, Repr
+
+/-- how a shard leaves `hybrid_protocol` -/
+inductive Exit where
+  | ok | zeroRecords
+  deriving DecidableEq, Repr
+
+/-- The collective steps a shard takes part in, as the code was BEFORE the repair of F8: an empty input
+returns zeros at once; `TotalRecords::specified(0)?` fails in `compute_prf_and_reshard` and in
+`reveal_breakdowns`; `breakdown_reveal_aggregation` returns zeros before its shuffle when it gets no rows. -/
+def collStepsUnfixed (c : Counts) : List Coll × Exit :=
+  if c.entry = 0 then ([], .ok)
+  else if c.afterShuffle1 = 0 then ([.inputShuffle], .zeroRecords)
+  else if c.pairs = 0 then ([.inputShuffle, .reshardByPrf, .finalize], .ok)
+  else if c.afterShuffle2 = 0 then ([.inputShuffle, .reshardByPrf, .aggShuffle], .zeroRecords)
+  else ([.inputShuffle, .reshardByPrf, .aggShuffle, .finalize], .ok)
+
+/-- … and as the code is now: only a lone shard returns early on an empty input; a shard without rows
+reshards an empty stream, shuffles an empty vector and sends a zero histogram to the leader (the local
+three-helper work — conversions, PRF, pair additions, reveals, aggregation tree — is skipped). -/
+def collSteps (nShards : Nat) (c : Counts) : List Coll × Exit :=
+  if c.entry = 0 ∧ nShards = 1 then ([], .ok)
+  else ([.inputShuffle, .reshardByPrf, .aggShuffle, .finalize], .ok)
+
+/-- every collective step is entered by all shards or by none, and nobody fails -/
+def allJoin : List (List Coll × Exit) → Bool
+  | [] => true
+  | t :: ts => t.2 == .ok && ts.all (· == t)
+
+/-- identity shuffles, no dummies: the counts of the canonical run -/
+def canonicalCounts (w : Widths) (shards : List (List Rec)) : List Counts :=
+  let n := shards.length
+  (List.range n).map fun d =>
+    let pairs := (aggregateReports w (reshardByPrf n id shards d)).length
+    { entry := (shards.getD d []).length, afterShuffle1 := (shards.getD d []).length, pairs := pairs, afterShuffle2 := pairs }
+
+/-- Outcome of a query (`none` = the query never completes / fails) for ANY row counts `obs` the shards
+may observe after the shuffles (`obs[d].entry` is the size of shard `d`'s input). -/
+def runOutcomeWith (steps : Counts → List Coll × Exit) (w : Widths) (chunk : Nat) (shards : List (List Rec))
+    (obs : List Counts) : Option (List Nat) :=
+  if allJoin (obs.map steps) then some (run w chunk shards) else none
+
+/-- the code as it is (F8 repaired) -/
+def runOutcome (w : Widths) (chunk : Nat) (shards : List (List Rec)) (obs : List Counts) : Option (List Nat) :=
+  runOutcomeWith (collSteps shards.length) w chunk shards obs
+
+/-- the code before the repair of F8 (kept as documentation of the defect) -/
+def runOutcomeUnfixed (w : Widths) (chunk : Nat) (shards : List (List Rec)) (obs : List Counts) : Option (List Nat) :=
+  runOutcomeWith collStepsUnfixed w chunk shards obs
 
 end IpaVerif.Hybrid
